@@ -248,7 +248,7 @@ def run(ctx, rep):
     rep.rule("R11.3", "after every accepted write the rotation test is evaluated; rotation happens iff records_count >= chunk_max_records || chunk_size >= chunk_max_size")
     rep.rule("R11.4", "every write operation returns the segment (offsets[len-2], offsets[len-1]-offsets[len-2]) of the open chunk read after journalling its record and before any rotation")
     rep.rule("R11.5", "on_disk_size = end of the open chunk - (start of the first closed chunk, or of the open chunk when none is closed)")
-    creators = {b["key"] for b, bi, t in ctx.all_calls(r"fs::OpenOptions::create_new$")}
+    creators = chunk_creators(ctx)
     ops = [k for k in ctx.write_entries() if not k.endswith("::flush")]
     rep.floor("R11.4", "write operations", len(ops), 7)
     for key in ops:
